@@ -9,12 +9,12 @@ package main
 //	  show <spec>              same, with the program text and the messages (replays, debugging)
 //	  ctxget <name> <op> <mask>  linter/context Get/Set/Unset called directly (tie C of the lookup model)
 //
-// cell specs (fields separated by '|'; <mask> is a 9-bit mask, bit i = scope i of scopeNames):
+// cell specs (fields separated by ','; <mask> is a 9-bit mask, bit i = scope i of scopeNames):
 //
-//	V|<name>|get/set/unset|<mask>          predefined variable
-//	F|<name>|<signature index>|<mask>      built-in function, one well-typed argument vector
-//	S|<kind>|<mask>                        restart error esi synthetic synthetic.base64 return:<action>
-//	O|<operator>|<left type>|<right type>|<form>   form: lit local predef
+//	V,<name>,get/set/unset,<mask>          predefined variable
+//	F,<name>,<signature index>,<mask>      built-in function, one well-typed argument vector
+//	S,<kind>,<mask>                        restart error esi synthetic synthetic.base64 return:<action>
+//	O,<operator>,<left type>,<right type>,<form>   form: lit local predef
 //
 // A one-bit mask puts the use into sub vcl_<scope>; a mask with several bits puts it into a user
 // subroutine annotated with those scopes and called from each of the vcl_<scope> subroutines.
@@ -74,6 +74,13 @@ director dr_one random { { .backend = be_one; .weight = 1; } }
 director dr_two random { { .backend = be_two; .weight = 1; } }
 acl acl_one { "192.0.2.0"/24; }
 table tbl_one { "k": "v" }
+table tbl_acl ACL { "k": acl_one }
+table tbl_backend BACKEND { "k": be_one }
+table tbl_bool BOOL { "k": true }
+table tbl_float FLOAT { "k": 1.5 }
+table tbl_integer INTEGER { "k": 1 }
+table tbl_ip IP { }
+table tbl_rtime RTIME { "k": 1s }
 ratecounter rc_one { }
 ratecounter rc_two { }
 penaltybox pb_one { }
@@ -291,7 +298,7 @@ func tValueOf(t string) (string, bool) {
 }
 
 // ID-typed arguments depend on the function (hand table: function, position -> identifier)
-func tIDArg(fn string, pos int) string {
+func tIDArg(fn string, pos int, mask int) string {
 	switch {
 	case strings.HasPrefix(fn, "crypto."):
 		return []string{"aes128", "cbc", "nopad"}[pos]
@@ -309,7 +316,11 @@ func tIDArg(fn string, pos int) string {
 		}
 		return "standard"
 	case strings.HasPrefix(fn, "setcookie."):
-		return "beresp"
+		// the response object that exists in the scope: beresp in vcl_fetch, resp otherwise
+		if mask == 1<<5 {
+			return "beresp"
+		}
+		return "resp"
 	case fn == "std.collect" || fn == "std.count":
 		return "req.http.X-Verif"
 	case strings.HasPrefix(fn, "ratelimit.penaltybox"):
@@ -336,9 +347,9 @@ func tIDArg(fn string, pos int) string {
 }
 
 var tDeclarable = map[string]bool{"INTEGER": true, "FLOAT": true, "STRING": true, "BOOL": true, "RTIME": true,
-	"TIME": true, "IP": true, "BACKEND": true, "ACL": true}
+	"TIME": true, "IP": true, "BACKEND": true}
 
-func tFuncBody(name string, sigIdx int) (decls, body string, err error) {
+func tFuncBody(name string, sigIdx int, mask int) (decls, body string, err error) {
 	c := lctx.New()
 	c.Scope(0x111111111)
 	fs := c.VerifFunctions()
@@ -365,7 +376,17 @@ func tFuncBody(name string, sigIdx int) (decls, body string, err error) {
 		}
 		for i, t := range f.Arguments[sigIdx] {
 			if t == types.IDType {
-				args = append(args, tIDArg(name, i))
+				args = append(args, tIDArg(name, i, mask))
+				continue
+			}
+			if t == types.TableType {
+				// a table whose value type is the one the function looks up
+				tbl := "tbl_one"
+				switch strings.TrimPrefix(name, "table.lookup_") {
+				case "acl", "backend", "bool", "float", "integer", "ip", "rtime":
+					tbl = "tbl_" + strings.TrimPrefix(name, "table.lookup_")
+				}
+				args = append(args, tbl)
 				continue
 			}
 			v, ok := tValueOf(t.String())
@@ -435,8 +456,10 @@ func tStmtBody(kind string) (decls, body string, err error) {
 	return "", "", fmt.Errorf("bad statement kind %s", kind)
 }
 
-// operand of a type in a form; ok=false when the form does not exist for the type
-func tOperand(ty, form, local string) (decl, expr string, ok bool) {
+// operand of a type in a form; ok=false when the form does not exist for the type.
+// Local operands are initialised with a non-degenerate value (no zero divisor, a parsable
+// address) so that what is observed is the typing of the operator, not a value error.
+func tOperand(ty, form, local string, left bool) (decl, expr string, ok bool) {
 	switch form {
 	case "lit":
 		switch ty {
@@ -445,7 +468,7 @@ func tOperand(ty, form, local string) (decl, expr string, ok bool) {
 		case "FLOAT":
 			return "", "1.5", true
 		case "STRING":
-			return "", `"s"`, true
+			return "", `"192.0.2.1"`, true
 		case "BOOL":
 			return "", "true", true
 		case "RTIME":
@@ -458,15 +481,25 @@ func tOperand(ty, form, local string) (decl, expr string, ok bool) {
 		return "", "", false
 	case "local":
 		if ty == "header" {
-			return "", "req.http.X-Verif-" + local, true
+			n := "req.http.X-Verif-" + local
+			return "set " + n + " = \"192.0.2.1\";\n", n, true
 		}
-		return "declare local var." + local + " " + ty + ";\n", "var." + local, true
+		init := map[string]string{"INTEGER": "7", "FLOAT": "2.5", "STRING": `"192.0.2.1"`, "BOOL": "true", "RTIME": "90s",
+			"TIME": "now", "IP": `"192.0.2.9"`, "BACKEND": "be_two"}
+		if left {
+			init["INTEGER"], init["FLOAT"], init["RTIME"] = "42", "40.5", "3600s"
+		}
+		d := "declare local var." + local + " " + ty + ";\n"
+		if v, ok := init[ty]; ok {
+			d += "set var." + local + " = " + v + ";\n"
+		}
+		return d, "var." + local, true
 	case "predef":
 		switch ty {
 		case "INTEGER":
-			return "", "req.restarts", true
+			return "", "client.socket.cwnd", true
 		case "FLOAT":
-			return "", "client.socket.ploss", true
+			return "", "math.PI", true
 		case "STRING":
 			return "", "req.url", true
 		case "BOOL":
@@ -491,11 +524,11 @@ var tAssignOps = map[string]bool{"=": true, "+=": true, "-=": true, "*=": true, 
 	"^=": true, "<<=": true, ">>=": true, "rol=": true, "ror=": true, "&&=": true, "||=": true}
 
 func tOpBody(op, lty, rty, form string) (decls, body string, err error) {
-	ld, le, ok := tOperand(lty, "local", "l")
+	ld, le, ok := tOperand(lty, "local", "l", true)
 	if !ok {
 		return "", "", fmt.Errorf("no left operand of type %s", lty)
 	}
-	rd, re, ok := tOperand(rty, form, "r")
+	rd, re, ok := tOperand(rty, form, "r", false)
 	if !ok {
 		return "", "", fmt.Errorf("no %s operand of type %s", form, rty)
 	}
@@ -506,7 +539,7 @@ func tOpBody(op, lty, rty, form string) (decls, body string, err error) {
 }
 
 func tCell(spec string) (res tResult) {
-	f := strings.Split(spec, "|")
+	f := strings.Split(spec, ",")
 	var decls, body string
 	var err error
 	mask := 1
@@ -516,8 +549,8 @@ func tCell(spec string) (res tResult) {
 		mask, _ = strconv.Atoi(f[3])
 	case f[0] == "F" && len(f) == 4:
 		idx, _ := strconv.Atoi(f[2])
-		decls, body, err = tFuncBody(f[1], idx)
 		mask, _ = strconv.Atoi(f[3])
+		decls, body, err = tFuncBody(f[1], idx, mask)
 	case f[0] == "S" && len(f) == 3:
 		decls, body, err = tStmtBody(f[1])
 		mask, _ = strconv.Atoi(f[2])
@@ -567,10 +600,10 @@ func tLint(src string) (verdict, msg string) {
 // ---------------------------------------------------------------- the real simulator
 
 var (
-	tReScope = regexp.MustCompile(`(?i)could not call on|only available in|could only be enable on|is not available in|unexpected state|not allowed in|invalid state|state .* is not|could not (access|use) in`)
+	tReScope = regexp.MustCompile(`(?i)could not call on|only available in|could only be enable on|is not available in|unexpected state|not allowed in|invalid state|state .* is not|could not (access|use) in|is not accessible in|cannot be assigned to .* in scope`)
 	tReUndef = regexp.MustCompile(`(?i)undefined variable|is not defined|not implemented|undefined expression|is not found|could not (read|set|unset|assign)|cannot (read|set|unset)|is read-?only|is not found|undefined`)
 	tReArity = regexp.MustCompile(`(?i)expects \d+ arguments? but|expects between|at least \d+ arguments|could not accept any arguments|argument count`)
-	tReType  = regexp.MustCompile(`(?i)expects \S+ type but|cannot convert to string|could not assign to|invalid assignment|invalid operator|must be an ident|type mismatch|could not specify|invalid addition|invalid subtraction|invalid multipl|invalid division|invalid remainder|invalid (left|right)|invalid bitwise|invalid logical|invalid (shift|rotate)|unexpected type|could not (add|subtract|multipl|divide|compare)|invalid type|comparison|type of|types?\b.*\bnot\b`)
+	tReType  = regexp.MustCompile(`(?i)expects \S+ type but|cannot convert to string|could not assign to|invalid assignment|invalid operator|must be an ident|type mismatch|could not specify|invalid addition|invalid subtraction|invalid multipl|invalid division|invalid remainder|invalid (left|right)|invalid bitwise|invalid logical|invalid (shift|rotate)|unexpected type|could not (add|subtract|multipl|divide|compare)|invalid type|comparison|type of|types?\b.*\bnot\b|left and right type must be|could not use (\S+ )?assignment for type|must be a literal|could not be a literal|literal could not|value type is not`)
 )
 
 func tClassify(msg string) string {
